@@ -18,7 +18,7 @@ HERE = os.path.dirname(os.path.abspath(__file__))
 ROOT = os.path.normpath(os.path.join(HERE, '..'))
 LEAN_DIR = os.environ.get('VERIF_LEAN_DIR') or os.path.join(ROOT, 'lean')
 REPO = os.environ.get('LADYBUG_REPO', '/repo')
-EVIDENCE_DIR = os.path.join(ROOT, 'evidence')
+EVIDENCE_DIR = os.environ.get('VERIF_EVIDENCE_DIR') or os.path.join(ROOT, 'evidence')
 REPLAY_DIR = os.path.join(ROOT, 'replays')
 KNOWN_FINDINGS = os.path.join(ROOT, 'known_findings.json')
 
